@@ -26,6 +26,7 @@ def data_env():
             f.write(json.dumps(json.load(open(p))) + "\n")
     env = {"VERIF_LIKELY": os.path.join(REPO, "unic-langid-impl/data/likelySubtags.json"), "VERIF_LAYOUT": lay}
     os.environ.update(env)
+    engine.source_dictionary()      # VERIF_DICT: the drivers mix the library's own words into their arguments
     return env
 
 
@@ -73,6 +74,18 @@ def m_locale(c, binp, tier, modes=("loc", "ext"), light=False):
             c.add_model(run_model("%s-%s" % (c.prop, name), "MC_Locale", consts, LOC_INV, binp=binp, workers=12, timeout=10800))
 
 
+def m_dict(c, binp, tier):
+    """both parsers over the words the library's own sources mention (MC_Dict.tla)"""
+    words, note, nfiles = engine.source_dictionary()
+    if note:
+        c.notes.append(note)
+    if not words:
+        raise ToolError("source dictionary is empty (%d files scanned)" % nfiles)
+    c.extra_cov["source_dictionary"] = words
+    c.add_model(run_model("%s-dict%d" % (c.prop, 3 if tier == "quick" else 4), "MC_Dict", dict(Depth=3 if tier == "quick" else 4, FullDepth=2),
+                          ["ValueOK", "RoundTrip", "LocaleAgrees", "EmitCase"], binp=binp, workers=12, timeout=7200))
+
+
 def m_impl(c, binp, tier, replay=True):
     """the parser as implemented, step by step: termination (ranking function) and refinement of the abstract
     automaton are model-checked; the exact predicted outcomes are replayed to count behaviour drift (informational)"""
@@ -94,6 +107,9 @@ def m_impl(c, binp, tier, replay=True):
 def m_subtags(c, binp, tier, light=False):
     runs = [("sub-boundary4", dict(MaxLen=4 if not light else 3, FullLen=4, Alpha="boundary", Emit=True)),
             ("sub-reduced%d" % (7 if tier == "quick" else 9), dict(MaxLen=7 if tier == "quick" else 9, FullLen=2, Alpha="reduced", Emit=True))]
+    if not light:
+        # every byte value at every position of a short string (one odd byte per string)
+        runs += [("sub-oneodd%d" % (4 if tier == "quick" else 5), dict(MaxLen=4 if tier == "quick" else 5, FullLen=0, Alpha="oneodd", Emit=True))]
     if tier == "thorough":
         runs += [("sub-all3", dict(MaxLen=3, FullLen=3, Alpha="all", Emit=True))]
     for name, consts in runs:
@@ -281,6 +297,7 @@ def C02(tier, seed):
     c = Check("C02", tier, seed)
     binp = build_harness(ALL)
     m_langid(c, binp, tier)
+    m_dict(c, binp, tier)
     traces(c, binp, "parse", tier)
     c.require(["li_accepted", "li_rejected"])
     return c.finish(rule="every token sequence over the 67-token boundary alphabet up to the depth bound through from_bytes/FromStr/canonicalize, verdict + error kind + all fields + text compared with ParseLI; non-trivial = accepted identifiers",
@@ -292,6 +309,7 @@ def C03(tier, seed):
     binp = build_harness(ALL)
     m_locale(c, binp, tier)
     m_langid(c, binp, tier, light=True)
+    m_dict(c, binp, tier)
     m_impl(c, binp, tier)
     traces(c, binp, "parse", tier)
     c.require(["zone_accept", "zone_either", "zone_other", "zone_free", "zone_reject", "loc_accepted", "loc_rejected", "ext_from_bytes"])
@@ -413,6 +431,7 @@ def C13(tier, seed):
     c = Check("C13", tier, seed)
     binp = build_harness(ALL)
     m_langid(c, binp, tier)
+    m_dict(c, binp, tier)
     m_locale(c, binp, tier, modes=("loc",))
     return c.finish(rule="every language-identifier case also through Locale (identical id, no extensions, same text, conversions both ways, AsRef); every accept-zone locale case: id = LanguageIdentifier of the text before the first singleton",
                     assumptions=ASSUME_COMMON, exhaustive=True)
